@@ -317,7 +317,8 @@ def check_oneshot(eng, run):
         missing = []
         for w in words:
             ok = False
-            for n in own_nodes(f.node):
+            from sa.norm import nodes_inl as _ninl
+            for n, _o in _ninl(f):  # (the guards may sit in a private helper that deserialize() delegates the decoding to)
                 if isinstance(n, ast.If) and w in ast.unparse(n.test).lower():
                     if _all_paths_raise(n.body):
                         ok = True
@@ -663,12 +664,43 @@ def check_integrity_and_iterators(eng, run):
     run.floor("C05.err receive iterators", n, 3)
 
 
+def check_keep_end_governs_removal(eng, run):
+    """what the line serializer sends is what it hands back: its one-shot methods remove the separator only under the `keep_end`
+    switch (off: trailing newlines are not part of the packet).  A removal that ignores the switch - on either side - makes a packet
+    that ends in a newline come back shorter when keep_end=True."""
+    n = 0
+    for ci in eng.db.classes.values():
+        if not ci.module.name.endswith("serializers.line"):
+            continue
+        for m in ci.methods.values():
+            if isinstance(m.node, ast.Lambda) or m.name not in ("serialize", "deserialize"):
+                continue
+            pm = {}
+            for p_ in ast.walk(m.node):
+                for c_ in ast.iter_child_nodes(p_):
+                    pm[c_] = p_
+            for c in own_nodes(m.node):
+                if isinstance(c, ast.Call) and isinstance(c.func, ast.Attribute) and c.func.attr in ("removesuffix", "rstrip", "strip", "removeprefix", "lstrip"):
+                    n += 1
+                    x, ok = c, False
+                    while x in pm:
+                        x = pm[x]
+                        if isinstance(x, ast.If) and "keep_end" in ast.unparse(x.test):
+                            ok = True
+                    if not ok:
+                        run.finding("C05.sep", m, next((s_ for s_ in own_nodes(m.node) if isinstance(s_, ast.stmt) and not isinstance(s_, (ast.If, ast.While, ast.For)) and any(y is c for y in ast.walk(s_))), m.node),
+                                    f"`{ast.unparse(c)[:50]}` removes separators without asking `keep_end`: with keep_end=True a packet ending in the newline sequence is not the packet that is received")
+                    run.ob("C05.sep", f"{ci.name}.{m.name}:{c.func.attr}:under-keep_end", ok)
+    run.floor("C05.sep separator removals in the line serializer's one-shot methods", n, 1)
+
+
 def run(eng, run):
     from sa.anchors import verify as _verify_anchor_names
     _verify_anchor_names(eng, run)
     run.not_decided += NOT_DECIDED
     run.attempt(check_drop, eng, run)
     run.attempt(check_sep, eng, run)
+    run.attempt(check_keep_end_governs_removal, eng, run)
     run.attempt(check_pure, eng, run)
     run.attempt(check_card, eng, run)
     run.attempt(check_oneshot, eng, run)
